@@ -6,12 +6,7 @@ From Soy Require Import Model.Bytes Model.Num Model.Values Model.Outcome Model.A
 Open Scope N_scope.
 
 (* ---- the three texts ---- *)
-Definition go_dir_text (d : pdir) (s : bstr) : bstr := match d with PEscapeHtml => tmpl_html_escape s | _ => s end.
-Fixpoint go_dirs_text (ds : list pdir) (s : bstr) : bstr :=
-  match ds with [] => s | d :: r => go_dirs_text r (go_dir_text d s) end.
-(* what the Go renderer writes for {print e|ds} when String() of the value is s *)
-Definition go_print_text (mode : N) (ds : list pdir) (s : bstr) : bstr :=
-  match ds with [] => if mode =? 2 then s else html_escape s | _ => go_dirs_text ds s end.
+(* go_dir_text / go_dirs_text / go_print_text (what the Go renderer writes) are in Model/MiniJS.v *)
 
 Definition js_dir_text (d : pdir) (s : bstr) : bstr := match d with PEscapeHtml => js_escape_html s | _ => s end.
 Fixpoint js_dirs_text (ds : list pdir) (s : bstr) : bstr :=
@@ -153,6 +148,106 @@ Proof.
   exists st3, ws. split; [destruct v; try congruence; exact Hrest|]. repeat split; congruence.
 Qed.
 
+(* ---- the writer in general: the innermost capture buffer of renderBlock, or the output ---- *)
+(* it does not fail: a capture buffer never does; the output does not when it has no budget of calls or bytes *)
+Definition wok (st : mstate) : Prop :=
+  match bufs st with [] => calls_left st = None /\ bytes_left st = None | _ => True end.
+(* st' is st after the writes ws (in order) *)
+Definition wrote (st st' : mstate) (ws : list bstr) : Prop :=
+  calls_left st' = calls_left st /\ bytes_left st' = bytes_left st /\
+  match bufs st with
+  | [] => bufs st' = [] /\ out st' = rev ws ++ out st
+  | b :: rest => bufs st' = (rev ws ++ b) :: rest /\ out st' = out st
+  end.
+(* nothing written, the writer untouched *)
+Definition wsame (st st' : mstate) : Prop :=
+  out st' = out st /\ bufs st' = bufs st /\ calls_left st' = calls_left st /\ bytes_left st' = bytes_left st.
+
+Lemma pres_wsame st st' : pres st st' -> wsame st st'.
+Proof. intros (_ & _ & O & B & C & Y). repeat split; assumption. Qed.
+Lemma wsame_refl st : wsame st st. Proof. repeat split. Qed.
+Lemma wsame_trans a c d : wsame a c -> wsame c d -> wsame a d.
+Proof. intros (A1 & A2 & A3 & A4) (B1 & B2 & B3 & B4). repeat split; congruence. Qed.
+Lemma wsame_wrote st st' : wsame st st' -> wrote st st' [].
+Proof. intros (O & B & C & Y). unfold wrote. rewrite C, Y. split; [reflexivity|]. split; [reflexivity|]. destruct (bufs st); cbn; auto. Qed.
+Lemma wrote_l a c d ws : wsame a c -> wrote c d ws -> wrote a d ws.
+Proof. intros (O & B & C & Y) (H1 & H2 & H3). unfold wrote. rewrite <- B, <- O, <- C, <- Y. auto. Qed.
+Lemma wrote_r a c d ws : wrote a c ws -> wsame c d -> wrote a d ws.
+Proof.
+  intros (H1 & H2 & H3) (O & B & C & Y). unfold wrote. rewrite O, B, C, Y. auto.
+Qed.
+Lemma wrote_trans a c d ws1 ws2 : wrote a c ws1 -> wrote c d ws2 -> wrote a d (ws1 ++ ws2).
+Proof.
+  intros (A1 & A2 & A3) (B1 & B2 & B3). unfold wrote. split; [congruence|]. split; [congruence|].
+  destruct (bufs a) as [|b rest].
+  - destruct A3 as [A3 A4]. rewrite A3 in B3. destruct B3 as [B3 B4]. split; [exact B3|]. rewrite B4, A4, rev_app_distr, app_assoc. reflexivity.
+  - destruct A3 as [A3 A4]. rewrite A3 in B3. destruct B3 as [B3 B4]. split; [rewrite B3, rev_app_distr, app_assoc; reflexivity|congruence].
+Qed.
+Lemma wrote_wok st st' ws : wrote st st' ws -> wok st -> wok st'.
+Proof.
+  intros (C & Y & H) W. unfold wok in *. destruct (bufs st) as [|b rest].
+  - destruct H as [H _]. rewrite H, C, Y. exact W.
+  - destruct H as [H _]. rewrite H. exact I.
+Qed.
+Lemma wsame_wok st st' : wsame st st' -> wok st -> wok st'.
+Proof. intros H. apply (wrote_wok st st' []). apply wsame_wrote; exact H. Qed.
+(* the special case of the output *)
+Lemma wrote_out st st' ws : bufs st = [] -> wrote st st' ws -> bufs st' = [] /\ out st' = rev ws ++ out st.
+Proof. intros Hb (_ & _ & H). rewrite Hb in H. exact H. Qed.
+
+Lemma write_wok w st : wok st -> exists st', write w st = (Ok tt, st') /\ wrote st st' [w] /\ ctx st' = ctx st /\ mode st' = mode st.
+Proof.
+  unfold wok, write, wrote. destruct (bufs st) as [|b rest] eqn:Eb.
+  - intros [Hc Hy]. rewrite Hc, Hy. eexists. split; [reflexivity|]. cbn. rewrite Eb. auto 10.
+  - intros _. eexists. split; [reflexivity|]. cbn. auto 10.
+Qed.
+Lemma write_all_wok ws : forall st, wok st ->
+  exists st', write_all ws st = (Ok tt, st') /\ wrote st st' ws /\ ctx st' = ctx st /\ mode st' = mode st.
+Proof.
+  induction ws as [|w r IH]; intros st W; cbn [write_all].
+  - exists st. split; [reflexivity|]. split; [apply wsame_wrote, wsame_refl|auto].
+  - destruct (write_wok w st W) as (st1 & E1 & W1 & C1 & M1). unfold mbind at 1. rewrite E1.
+    destruct (IH st1 (wrote_wok _ _ _ W1 W)) as (st2 & E2 & W2 & C2 & M2).
+    exists st2. split; [exact E2|]. split; [exact (wrote_trans _ _ _ [w] r W1 W2)|split; congruence].
+Qed.
+
+(* interp_print_dirs for any writer that does not fail *)
+Lemma interp_print_dirs_w cf e ds fuel st v s :
+  c_oblig cf = [] -> wok st ->
+  (forall k x, sc_lookup (ctx st) k = Some x -> core_value x = true) ->
+  (forall x, c_ij cf = Some x -> core_value x = true) ->
+  (S (cdepth e) < fuel)%nat ->
+  ceval (c_ij cf) (sc_lookup (ctx st)) e = Some v -> v <> VUndef -> value_string v = Ok s ->
+  exists st' ws, walk cf fuel (NPrint 0 (cnode e) (map pdir_node ds)) st = (Ok VUndef, st')
+              /\ wrote st st' ws /\ concat_b ws = go_print_text (mode st) ds s
+              /\ ctx st' = ctx st /\ mode st' = mode st.
+Proof.
+  intros Hob W Hce Hci Hf E Hv Hs.
+  destruct fuel as [|f]; [lia|]. cbn [walk]. unfold walk_body. unfold mbind at 1. cbn [modify].
+  set (st1 := set_cur st (pos_of (NPrint 0 (cnode e) (map pdir_node ds)))).
+  assert (P1 : pres st st1) by apply pres_set_cur.
+  destruct (interp_ceval cf st Hce Hci e f st1 v ltac:(lia) (pres_ctx _ _ P1) E) as (st2 & E2 & P2).
+  pose proof (pres_trans _ _ _ P1 P2) as P. pose proof P as (C & Mo & Ou & Bu & Cl & Bl).
+  cbn [walk_node]. unfold mbind at 1. rewrite E2.
+  set (text := go_print_text (mode st) ds s).
+  assert (Hws : exists ws, print_writes (mode st2) (map (fun d => (pdir_name d, @nil darg)) ds) s = Ok ws /\ concat_b ws = text).
+  { unfold print_writes. rewrite apply_directives_subset. cbn [bind]. subst text. unfold go_print_text. rewrite Mo.
+    destruct ds as [|d r].
+    - cbn [go_dirs_text]. destruct (mode st =? 2); cbn [negb]; eexists; (split; [reflexivity|]). cbn. apply app_nil_r. reflexivity.
+    - eexists. split; [reflexivity|]. cbn. apply app_nil_r. }
+  destruct Hws as (ws & Hw & Hcat).
+  destruct (write_all_wok ws st2 (wsame_wok _ _ (pres_wsame _ _ P) W)) as (st3 & E3 & W3 & C3 & M3).
+  assert (Hrest : (dsx <-- print_dirs cf (walk cf f) (map pdir_node ds);;;
+                   s0 <-- lift (value_string v);;;
+                   stx <-- get;;;
+                   wsx <-- lift (print_writes (mode stx) dsx s0);;; _ <-- write_all wsx;;; ret VUndef) st2
+                  = (Ok VUndef, st3)).
+  { unfold mbind at 1. rewrite (print_dirs_subset cf (walk cf f) ds st2 Hob). unfold mbind at 1. rewrite Hs. cbn [lift].
+    unfold mbind at 1. cbn [get]. unfold mbind at 1. rewrite Hw. cbn [lift]. unfold mbind at 1. rewrite E3. reflexivity. }
+  exists st3, ws. split; [destruct v; try congruence; exact Hrest|].
+  split; [exact (wrote_l _ _ _ _ (pres_wsame _ _ P) W3)|]. repeat split; congruence.
+Qed.
+
 (* ---- the generator: the chunks of the print statement ---- *)
 Definition is_esc (d : pdir) : bool := match d with PEscapeHtml => true | _ => false end.
 Definition escs (ds : list pdir) : list (bstr * list node) := map (fun _ => (n_escapeHtml, @nil node)) (filter is_esc ds).
@@ -234,19 +329,19 @@ Theorem cgen_print_dirs e ds fuel st : (S (cdepth e) < fuel)%nat ->
   exists stf, jwalk o fuel (NPrint 0 (cnode e) (map pdir_node ds)) st = Ok (tt, stf)
     /\ j_out stf = rev ([CText (indent_text (j_indent st)); CName (j_buf st); CText t_pluseq]
                         ++ jprint (cgen_print_expr (j_auto st) ds (cgen (j_scope st) e)) ++ [CText t_semi_nl]) ++ j_out st
-    /\ j_indent stf = j_indent st /\ j_buf stf = j_buf st /\ j_scope stf = j_scope st /\ j_auto stf = j_auto st.
+    /\ j_indent stf = j_indent st /\ j_buf stf = j_buf st /\ j_scope stf = j_scope st /\ j_auto stf = j_auto st /\ j_n stf = j_n st.
 Proof.
   intro Hf. destruct fuel as [|f]; [lia|]. rewrite jwalk_S. cbn [soydoc_flags].
   set (st1 := jset_cur None st).
-  assert (H1 : j_auto st1 = j_auto st /\ j_indent st1 = j_indent st /\ j_buf st1 = j_buf st /\ j_scope st1 = j_scope st /\ j_out st1 = j_out st)
-    by (subst st1; destruct st; cbn; auto).
-  destruct H1 as (A1 & I1 & B1 & S1 & O1). rewrite <- A1, <- I1, <- B1, <- S1, <- O1. clearbody st1.
+  assert (H1 : j_auto st1 = j_auto st /\ j_indent st1 = j_indent st /\ j_buf st1 = j_buf st /\ j_scope st1 = j_scope st /\ j_out st1 = j_out st /\ j_n st1 = j_n st)
+    by (subst st1; destruct st; cbn; auto 10).
+  destruct H1 as (A1 & I1 & B1 & S1 & O1 & N1). rewrite <- A1, <- I1, <- B1, <- S1, <- O1, <- N1. clearbody st1.
   cbn [jwalk_node]. unfold visit_print. erewrite jbind_ok; [|reflexivity].
   destruct (print_scan_subset ds (j_auto st1) [] st1) as (c & Es). erewrite jbind_ok; [|exact Es]. cbn [app].
   set (st2 := set_called c st1).
-  assert (H2 : j_auto st2 = j_auto st1 /\ j_indent st2 = j_indent st1 /\ j_buf st2 = j_buf st1 /\ j_scope st2 = j_scope st1 /\ j_out st2 = j_out st1)
-    by (subst st2; destruct st1; cbn; auto).
-  destruct H2 as (A2 & I2 & B2 & S2 & O2). rewrite <- I2, <- B2, <- S2, <- O2. clearbody st2.
+  assert (H2 : j_auto st2 = j_auto st1 /\ j_indent st2 = j_indent st1 /\ j_buf st2 = j_buf st1 /\ j_scope st2 = j_scope st1 /\ j_out st2 = j_out st1 /\ j_n st2 = j_n st1)
+    by (subst st2; destruct st1; cbn; auto 10).
+  destruct H2 as (A2 & I2 & B2 & S2 & O2 & N2). rewrite <- I2, <- B2, <- S2, <- O2, <- N2. clearbody st2.
   (* the directives kept: k explicit escapes, plus the implicit one *)
   set (k := length (filter is_esc ds)).
   assert (Hk : exists k', (if (match ds with [] => j_auto st1 | _ => 2 end) =? 2 then escs ds else escs ds ++ [(n_escapeHtml, [])])
@@ -265,7 +360,7 @@ Proof.
   rewrite jtxt_out. eexists. split; [reflexivity|]. split.
   - rewrite !j_out_st_out, j_out_st_after, !j_out_st_out, !scope_out, !buf_out. rewrite jprint_esc_n.
     rewrite !app_assoc. rewrite <- !rev_app_distr. f_equal. f_equal. rewrite <- ?app_assoc. cbn [app]. reflexivity.
-  - unfold st_after, st_out. destruct st2; cbn. auto.
+  - unfold st_after, st_out. destruct st2; cbn. auto 10.
 Qed.
 End PrintChunks.
 
@@ -298,494 +393,4 @@ Proof.
     rewrite (print_text_agree (mode st) ds s (Hclean s Hs)) in Tj.
     unfold js_append. rewrite Ej. cbn [bind]. rewrite Tj, Hbuf. eexists. split; [reflexivity|]. cbn [je_vars je_data].
     split; [apply assoc_s_aset|reflexivity].
-Qed.
-
-(* ================================================================== *)
-(* statements: raw text, print, if / else (no binders) *)
-
-Section cstmt_ind.
-  Variable P : cstmt -> Prop.
-  Hypothesis Hraw : forall t, P (SRaw t).
-  Hypothesis Hprint : forall e ds, P (SPrint e ds).
-  Hypothesis Hif : forall c th he el, Forall P th -> Forall P el -> P (SIf c th he el).
-  Fixpoint cstmt_ind' (s : cstmt) : P s :=
-    match s with
-    | SRaw t => Hraw t
-    | SPrint e ds => Hprint e ds
-    | SIf c th he el =>
-        Hif c th he el
-          ((fix go (l : list cstmt) : Forall P l := match l with [] => Forall_nil _ | x :: r => Forall_cons x (cstmt_ind' x) (go r) end) th)
-          ((fix go (l : list cstmt) : Forall P l := match l with [] => Forall_nil _ | x :: r => Forall_cons x (cstmt_ind' x) (go r) end) el)
-    end.
-End cstmt_ind.
-
-Lemma cacc_eval_same accs r : cacc_eval accs r = cacc_eval accs r. Proof. reflexivity. Qed.
-
-Lemma ceval_ext ij env1 env2 : (forall k, env1 k = env2 k) -> forall e, ceval ij env1 e = ceval ij env2 e.
-Proof.
-  intros H. induction e as [| x | z | s | key accs | a IHa | a IHa | op a IHa c IHc | c IHc a IHa d IHd]; cbn [ceval]; try reflexivity.
-  - rewrite H. reflexivity.
-  - rewrite IHa. reflexivity.
-  - rewrite IHa. reflexivity.
-  - rewrite IHa, IHc. reflexivity.
-  - rewrite IHc, IHa, IHd. reflexivity.
-Qed.
-
-Lemma sout_if ij env mode pt c th he el :
-  sout ij env mode pt (SIf c th he el)
-  = match ceval ij env c with
-    | Some v => if truthy v then sout_list ij env mode pt th else if he then sout_list ij env mode pt el else Some []
-    | None => None
-    end.
-Proof.
-  cbn [sout].
-  assert (H : forall l, (fix run (l : list cstmt) : option bstr :=
-                           match l with
-                           | [] => Some []
-                           | x :: r => match sout ij env mode pt x, run r with Some a, Some c0 => Some (a ++ c0) | _, _ => None end
-                           end) l = sout_list ij env mode pt l).
-  { induction l as [|x r IH]; [reflexivity|]. cbn [sout_list]. rewrite <- IH. reflexivity. }
-  rewrite !H. reflexivity.
-Qed.
-
-Lemma sout_ext ij env1 env2 mode pt : (forall k, env1 k = env2 k) -> forall s, sout ij env1 mode pt s = sout ij env2 mode pt s.
-Proof.
-  intro H. induction s as [t|e ds|c th he el IHt IHe] using cstmt_ind'.
-  - reflexivity.
-  - cbn [sout]. rewrite (ceval_ext ij env1 env2 H). reflexivity.
-  - rewrite !sout_if. rewrite (ceval_ext ij env1 env2 H).
-    assert (Hl : forall l, Forall (fun s => sout ij env1 mode pt s = sout ij env2 mode pt s) l -> sout_list ij env1 mode pt l = sout_list ij env2 mode pt l).
-    { induction 1 as [|x r Hx Hr IH]; [reflexivity|]. cbn [sout_list]. rewrite Hx, IH. reflexivity. }
-    rewrite (Hl th IHt), (Hl el IHe). reflexivity.
-Qed.
-
-Lemma js_exec_if env c th he el :
-  js_exec env (JSIf c th he el)
-  = (v <- js_eval env c ;; if js_truthy v then js_exec_list env th else if he then js_exec_list env el else Ok env).
-Proof. reflexivity. Qed.
-
-Lemma scalar_string_ok v s : scalar_string v = Some s -> printable_scalar v = true /\ value_string v = Ok s /\ js_tostring (to_js v) = Some s.
-Proof. destruct v; try discriminate; intro H; try destruct x; inversion H; subst; repeat split; reflexivity. Qed.
-Lemma cleanb_ok s : cleanb s = true -> clean s.
-Proof.
-  unfold cleanb, clean. intro H. apply Forall_forall. intros c Hc. pose proof (proj1 (forallb_forall _ _) H c Hc) as Hb.
-  apply andb_prop in Hb. destruct Hb as [H1 H2]. apply negb_true_iff in H1, H2. split; apply N.eqb_neq; assumption.
-Qed.
-
-Lemma assoc_s_aset_other {A} k k' (v : A) l : bstr_eqb k k' = false -> assoc_s k (aset l k' v) = assoc_s k l.
-Proof.
-  intro Hk. induction l as [|[k2 x] l IH]; cbn [aset]; unfold assoc_s; fold (@assoc_s A).
-  - rewrite Hk. reflexivity.
-  - destruct (bstr_eqb k' k2) eqn:E2; unfold assoc_s; fold (@assoc_s A).
-    + apply bstr_eqb_true in E2. subst k2. rewrite Hk. reflexivity.
-    + destruct (bstr_eqb k k2); [reflexivity|exact IH].
-Qed.
-
-(* ---- the JavaScript side ---- *)
-Section JsStmts.
-Variable sc : list (list (bstr * bstr)).
-Variable ij : option value.
-Variable env : bstr -> option value.
-Variable mode : N.
-Variable buf : bstr.
-(* the buffer variable is none of the variables the scope maps Soy names to, and not opt_ijData *)
-Hypothesis buf_fresh : forall key, bstr_eqb (jsc_lookup sc key) buf = false.
-Hypothesis buf_not_ij : bstr_eqb t_opt_ij buf = false.
-
-Definition jinv (je : jenv) (old : bstr) : Prop := env_rel sc ij env je /\ assoc_s buf (je_vars je) = Some (JStr old).
-
-Lemma jinv_append je old t : jinv je old ->
-  jinv {| je_vars := aset (je_vars je) buf (JStr (old ++ t)); je_data := je_data je |} (old ++ t).
-Proof.
-  intros [ER Hb]. split; [|apply assoc_s_aset]. destruct ER as [Ev Ei Ec Eci]. constructor; auto; cbn [je_vars je_data].
-  - intros key Hk. specialize (Ev key Hk). destruct (jsc_lookup sc key) as [|g0 g] eqn:El; [exact Ev|].
-    rewrite assoc_s_aset_other; [exact Ev|]. rewrite <- El. apply buf_fresh.
-  - intros v Hv. rewrite assoc_s_aset_other; [apply Ei; exact Hv|exact buf_not_ij].
-Qed.
-
-Theorem js_exec_correct s : forall je old text, sout ij env mode go_print_text s = Some text -> jinv je old ->
-  exists je', js_exec je (sgen sc mode buf s) = Ok je' /\ jinv je' (old ++ text).
-Proof.
-  induction s as [t|e ds|c th he el IHt IHe] using cstmt_ind'; intros je old text E Hinv.
-  - (* raw *) inversion E; subst. cbn [sgen js_exec]. unfold js_append_text. rewrite (proj2 Hinv). eexists. split; [reflexivity|]. apply jinv_append; exact Hinv.
-  - (* print *)
-    cbn [sout] in E. destruct (ceval ij env e) as [v|] eqn:Ev; [|discriminate]. destruct (scalar_string v) as [str|] eqn:Es; [|discriminate].
-    destruct (cleanb str) eqn:Ec; [|discriminate]. inversion E; subst. clear E.
-    destruct (scalar_string_ok v str Es) as (Hp & Hvs & Ht). destruct Hinv as [ER Hb].
-    destruct (cgen_correct sc ij env je ER e v Ev) as [Hj _].
-    destruct (js_print_expr je mode ds (cgen sc e) (to_js v) str Hj Ht) as (jv' & Ej & Tj).
-    rewrite (print_text_agree mode ds str (cleanb_ok _ Ec)) in Tj.
-    cbn [sgen js_exec]. unfold js_append. rewrite Ej. cbn [bind]. rewrite Tj, Hb. cbn [bind snd]. eexists. split; [reflexivity|].
-    apply jinv_append. split; assumption.
-  - (* if *)
-    rewrite sout_if in E. destruct (ceval ij env c) as [v|] eqn:Ev; [|discriminate].
-    destruct Hinv as [ER Hb]. destruct (cgen_correct sc ij env je ER c v Ev) as [Hj Hcv].
-    cbn [sgen]. rewrite js_exec_if, Hj. cbn [bind]. rewrite truthy_js by exact Hcv.
-    assert (Hl : forall l, Forall (fun s => forall je old text, sout ij env mode go_print_text s = Some text -> jinv je old ->
-                                   exists je', js_exec je (sgen sc mode buf s) = Ok je' /\ jinv je' (old ++ text)) l ->
-                 forall je old text, sout_list ij env mode go_print_text l = Some text -> jinv je old ->
-                 exists je', js_exec_list je (map (sgen sc mode buf) l) = Ok je' /\ jinv je' (old ++ text)).
-    { induction 1 as [|x r Hx Hr IH]; intros je0 old0 text0 E0 I0; cbn [sout_list map js_exec_list] in *.
-      - inversion E0; subst. rewrite app_nil_r. eauto.
-      - destruct (sout ij env mode go_print_text x) as [a|] eqn:Ea; [|discriminate].
-        destruct (sout_list ij env mode go_print_text r) as [c0|] eqn:Er; [|discriminate]. inversion E0; subst.
-        destruct (Hx je0 old0 a eq_refl I0) as (je1 & E1 & I1). rewrite E1. cbn [bind].
-        destruct (IH je1 (old0 ++ a) c0 eq_refl I1) as (je2 & E2 & I2). exists je2. split; [exact E2|]. rewrite app_assoc. exact I2. }
-    destruct (truthy v).
-    + apply (Hl th IHt); [exact E|split; assumption].
-    + destruct he.
-      * apply (Hl el IHe); [exact E|split; assumption].
-      * inversion E; subst. rewrite app_nil_r. exists je. split; [reflexivity|split; assumption].
-Qed.
-End JsStmts.
-
-(* ---- the Go side: statements ---- *)
-Definition gst (st : mstate) : Prop := bufs st = [] /\ calls_left st = None /\ bytes_left st = None.
-
-(* what a statement does to the renderer's state: it writes ws, and leaves scope, mode and writer as they were *)
-Definition sres (cf : cfg) (m : M value) (st : mstate) (text : bstr) : Prop :=
-  exists st' ws rv, m st = (Ok rv, st') /\ out st' = rev ws ++ out st /\ concat_b ws = text
-                    /\ ctx st' = ctx st /\ mode st' = mode st /\ gst st'.
-
-Section GoStmts.
-Variable cf : cfg.
-Variable env : bstr -> option value.
-Hypothesis Hob : c_oblig cf = [].
-Hypothesis env_core : forall k x, env k = Some x -> core_value x = true.
-Hypothesis ij_core : forall x, c_ij cf = Some x -> core_value x = true.
-
-Lemma walk_unfold f n st : walk cf (S f) n st = walk_node cf (walk cf f) n (set_cur st (pos_of n)).
-Proof. reflexivity. Qed.
-
-Lemma maxl_le (x : cstmt) l : In x l -> (sdepth x <= fold_right (fun y acc => Nat.max (sdepth y) acc) 0 l)%nat.
-Proof. induction l as [|y r IH]; intro H; [contradiction|]. cbn [fold_right]. destruct H as [->|H]; [lia|]. specialize (IH H). lia. Qed.
-
-Lemma sres_list f l : forall st text,
-  Forall (fun s => forall st text, (sdepth s < f)%nat -> gst st -> (forall k, sc_lookup (ctx st) k = env k) ->
-                   sout (c_ij cf) env (mode st) go_print_text s = Some text -> sres cf (walk cf f (snode s)) st text) l ->
-  (forall x, In x l -> (sdepth x < f)%nat) -> gst st -> (forall k, sc_lookup (ctx st) k = env k) ->
-  sout_list (c_ij cf) env (mode st) go_print_text l = Some text ->
-  exists st' ws, walk_list (walk cf f) (map snode l) st = (Ok tt, st') /\ out st' = rev ws ++ out st /\ concat_b ws = text
-                 /\ ctx st' = ctx st /\ mode st' = mode st /\ gst st'.
-Proof.
-  induction l as [|x r IH]; intros st text HF Hd Hg He E; cbn [map walk_list sout_list] in *.
-  - inversion E; subst. exists st, []. repeat split; auto; apply Hg.
-  - inversion HF as [|? ? Hx Hr]; subst.
-    destruct (sout (c_ij cf) env (mode st) go_print_text x) as [a|] eqn:Ea; [|discriminate].
-    destruct (sout_list (c_ij cf) env (mode st) go_print_text r) as [c0|] eqn:Er; [|discriminate]. inversion E; subst. clear E.
-    destruct (Hx st a (Hd x (or_introl eq_refl)) Hg He Ea) as (st1 & ws1 & rv & E1 & O1 & C1 & X1 & M1 & G1).
-    unfold mbind at 1. rewrite E1.
-    destruct (IH st1 c0 Hr (fun y Hy => Hd y (or_intror Hy)) G1) as (st2 & ws2 & E2 & O2 & C2 & X2 & M2 & G2).
-    + intro k. rewrite X1. apply He.
-    + rewrite M1. exact Er.
-    + exists st2, (ws1 ++ ws2). split; [exact E2|]. split; [rewrite O2, O1, rev_app_distr, app_assoc; reflexivity|].
-      split; [|repeat split; try congruence; apply G2].
-      rewrite <- C1, <- C2. clear. induction ws1 as [|w r IH]; [reflexivity|]. cbn. rewrite IH, app_assoc. reflexivity.
-Qed.
-
-(* a block: NList pushes an (empty) frame, walks its statements, pops *)
-Lemma sres_block f l st text :
-  Forall (fun s => forall st text, (sdepth s < f)%nat -> gst st -> (forall k, sc_lookup (ctx st) k = env k) ->
-                   sout (c_ij cf) env (mode st) go_print_text s = Some text -> sres cf (walk cf f (snode s)) st text) l ->
-  (forall x, In x l -> (sdepth x < f)%nat) -> gst st -> (forall k, sc_lookup (ctx st) k = env k) ->
-  sout_list (c_ij cf) env (mode st) go_print_text l = Some text ->
-  sres cf (walk cf (S f) (NList 0 (map snode l))) st text.
-Proof.
-  intros HF Hd Hg He E. unfold sres. rewrite walk_unfold. cbn [walk_node].
-  match goal with |- context [set_cur st ?p] => set (st1 := set_cur st p) end. unfold mbind at 1. unfold m_push. cbn [modify].
-  set (st2 := set_ctx st1 (sc_push (ctx st1))).
-  assert (G2 : gst st2) by (subst st2 st1; exact Hg).
-  assert (He2 : forall k, sc_lookup (ctx st2) k = env k) by (intro k; subst st2 st1; cbn; apply He).
-  assert (M2 : mode st2 = mode st) by reflexivity.
-  destruct (sres_list f l st2 text HF Hd G2 He2) as (st3 & ws & E3 & O3 & C3 & X3 & M3 & G3). { rewrite M2. exact E. }
-  unfold mbind at 1. rewrite E3. unfold mbind at 1. unfold m_pop. cbn [modify ret].
-  exists (set_ctx st3 (sc_pop (ctx st3))), ws, VUndef. split; [reflexivity|]. cbn [out set_ctx ctx mode].
-  split; [rewrite O3; reflexivity|]. split; [exact C3|]. split; [rewrite X3; reflexivity|]. split; [congruence|exact G3].
-Qed.
-
-Theorem interp_stmt s : forall f st text, (sdepth s < f)%nat -> gst st -> (forall k, sc_lookup (ctx st) k = env k) ->
-  sout (c_ij cf) env (mode st) go_print_text s = Some text -> sres cf (walk cf f (snode s)) st text.
-Proof.
-  induction s as [t|e ds|c th he el IHt IHe] using cstmt_ind'; intros f st text Hf Hg He E.
-  - (* raw text *)
-    inversion E; subst. destruct f as [|f]; [cbn in Hf; lia|]. unfold sres. rewrite walk_unfold. cbn [snode walk_node].
-    unfold mbind at 1. unfold write. destruct Hg as (Hb & Hc & Hy). cbn [bufs set_cur calls_left bytes_left]. rewrite Hb, Hc, Hy.
-    eexists _, [text], VUndef. split; [reflexivity|]. cbn. rewrite app_nil_r. repeat split; auto.
-  - (* print *)
-    cbn [sout] in E. destruct (ceval (c_ij cf) env e) as [v|] eqn:Ev; [|discriminate]. destruct (scalar_string v) as [str|] eqn:Es; [|discriminate].
-    destruct (cleanb str); [|discriminate]. inversion E; subst. clear E.
-    destruct (scalar_string_ok v str Es) as (Hp & Hvs & _). destruct Hg as (Hb & Hc & Hy).
-    assert (Ev' : ceval (c_ij cf) (sc_lookup (ctx st)) e = Some v) by (rewrite (ceval_ext _ _ env He); exact Ev).
-    destruct (interp_print_dirs cf e ds f st v str Hob Hb Hc Hy) as (st' & ws & E1 & O1 & C1 & X1 & M1 & B1 & L1 & Y1); auto.
-    + intros k x Hk. rewrite He in Hk. eapply env_core; eauto.
-    + cbn [sdepth] in Hf. lia.
-    + destruct v; try discriminate; discriminate.
-    + exists st', ws, VUndef. repeat split; auto.
-  - (* if *)
-    rewrite sout_if in E. destruct (ceval (c_ij cf) env c) as [v|] eqn:Ev; [|discriminate].
-    cbn [sdepth] in Hf. destruct f as [|f]; [lia|]. destruct f as [|f']; [lia|].
-    unfold sres. rewrite walk_unfold. cbn [snode walk_node if_conds].
-    match goal with |- context [set_cur st ?p] => set (st1 := set_cur st p) end.
-    assert (P1 : pres st st1) by apply pres_set_cur.
-    assert (Ev' : ceval (c_ij cf) (sc_lookup (ctx st)) c = Some v) by (rewrite (ceval_ext _ _ env He); exact Ev).
-    assert (Hce : forall k x, sc_lookup (ctx st) k = Some x -> core_value x = true) by (intros k x Hk; rewrite He in Hk; eapply env_core; eauto).
-    destruct (mok_eval (walk cf (S f')) (cnode c) st1 v (interp_ceval cf st Hce ij_core c (S f') st1 v ltac:(lia) (pres_ctx _ _ P1) Ev')) as (st2 & E2 & P2).
-    pose proof (pres_trans _ _ _ P1 P2) as (C & Mo & Ou & Bu & Cl & Bl).
-    unfold mbind at 1. rewrite E2.
-    assert (G2 : gst st2) by (destruct Hg as (Hb & Hc & Hy); repeat split; congruence).
-    assert (He2 : forall k, sc_lookup (ctx st2) k = env k) by (intro k; rewrite C; apply He).
-    assert (Hdt : forall x, In x th -> (sdepth x < f')%nat) by (intros x Hx; pose proof (maxl_le x th Hx); lia).
-    assert (Hde : forall x, In x el -> (sdepth x < f')%nat) by (intros x Hx; pose proof (maxl_le x el Hx); lia).
-    assert (Hfin : forall l, Forall (fun s => forall f st text, (sdepth s < f)%nat -> gst st -> (forall k, sc_lookup (ctx st) k = env k) ->
-                                      sout (c_ij cf) env (mode st) go_print_text s = Some text -> sres cf (walk cf f (snode s)) st text) l ->
-                   (forall x, In x l -> (sdepth x < f')%nat) -> sout_list (c_ij cf) env (mode st) go_print_text l = Some text ->
-                   sres cf (_ <-- walk cf (S f') (NList 0 (map snode l));;; ret VUndef) st2 text).
-    { intros l HF Hd El.
-      destruct (sres_block f' l st2 text) as (st3 & ws & rv & E3 & O3 & C3 & X3 & M3 & G3); auto.
-      - eapply Forall_impl; [|exact HF]. intros a Ha s0 t0. apply Ha.
-      - rewrite Mo. exact El.
-      - unfold sres, mbind. rewrite E3. exists st3, ws, VUndef. repeat split; auto; try congruence; apply G3. }
-    assert (Hwrap : forall m, sres cf m st2 text -> sres cf m st2 text -> exists st' ws rv, m st2 = (Ok rv, st') /\ out st' = rev ws ++ out st
-                     /\ concat_b ws = text /\ ctx st' = ctx st /\ mode st' = mode st /\ gst st').
-    { intros m (st3 & ws & rv & E3 & O3 & C3 & X3 & M3 & G3) _. exists st3, ws, rv. repeat split; auto; try congruence; apply G3. }
-    destruct (truthy v).
-    + apply Hwrap; apply (Hfin th IHt Hdt E).
-    + destruct he.
-      * cbn [if_conds]. apply Hwrap; apply (Hfin el IHe Hde E).
-      * cbn [if_conds]. inversion E; subst. exists st2, [], VUndef. repeat split; auto; try congruence; apply G2.
-Qed.
-End GoStmts.
-
-(* ---- the generator: the chunks of statements ---- *)
-Lemma cgen_push_frame sc e : cgen ([] :: sc) e = cgen sc e.
-Proof.
-  induction e as [| x | z | s | key accs | a IHa | a IHa | op a IHa c IHc | c IHc a IHa d IHd]; cbn [cgen]; try reflexivity;
-    try (rewrite ?IHa, ?IHc, ?IHd; reflexivity).
-Qed.
-Lemma sgen_push_frame sc mode buf s : sgen ([] :: sc) mode buf s = sgen sc mode buf s.
-Proof.
-  induction s as [t|e ds|c th he el IHt IHe] using cstmt_ind'; cbn [sgen]; try reflexivity.
-  - rewrite cgen_push_frame. reflexivity.
-  - rewrite cgen_push_frame. f_equal.
-    + induction IHt as [|x r Hx Hr IH]; [reflexivity|]. cbn [map]. rewrite Hx, IH. reflexivity.
-    + induction IHe as [|x r Hx Hr IH]; [reflexivity|]. cbn [map]. rewrite Hx, IH. reflexivity.
-Qed.
-
-Section StmtChunks.
-Variable o : jopts.
-
-(* what walking a statement does to the generator's state *)
-Definition gres (m : J unit) (st : jstate) (cs : list chunk) : Prop :=
-  exists stf, m st = Ok (tt, stf) /\ j_out stf = rev cs ++ j_out st
-              /\ j_indent stf = j_indent st /\ j_buf stf = j_buf st /\ j_scope stf = j_scope st /\ j_auto stf = j_auto st.
-
-Lemma gres_bind m f st c1 c2 :
-  gres m st c1 ->
-  (forall s1, j_indent s1 = j_indent st -> j_buf s1 = j_buf st -> j_scope s1 = j_scope st -> j_auto s1 = j_auto st -> gres (f tt) s1 c2) ->
-  gres (jbind m f) st (c1 ++ c2).
-Proof.
-  intros (s1 & E1 & O1 & I1 & B1 & S1 & A1) Hf. destruct (Hf s1 I1 B1 S1 A1) as (s2 & E2 & O2 & I2 & B2 & S2 & A2).
-  exists s2. rewrite (jbind_ok _ _ _ _ _ E1). split; [exact E2|]. split; [rewrite O2, O1, rev_app_distr, app_assoc; reflexivity|].
-  repeat split; congruence.
-Qed.
-Lemma gres_emit cs st : gres (jemit cs) st cs.
-Proof. exists (st_out st cs). rewrite jemit_out. split; [reflexivity|]. destruct st; cbn; auto. Qed.
-Lemma gres_txt t st : gres (jtxt t) st [CText t]. Proof. apply gres_emit. Qed.
-Lemma gres_indent st : gres jindent st [CText (indent_text (j_indent st))].
-Proof. unfold jindent. exists (st_out st [CText (indent_text (j_indent st))]). split; [unfold jbind, jget; apply jtxt_out|]. destruct st; cbn; auto. Qed.
-
-Lemma sprint_if_eq ind c th he el :
-  sprint ind (JSIf c th he el)
-  = [CText (indent_text ind); CText t_if_open] ++ jprint c ++ [CText t_op_mid1; CText t_brace_nl] ++ sprint_list (S ind) th
-    ++ [CText (indent_text ind); CText t_rbrace]
-    ++ (if he then [CText t_else; CText t_brace_nl] ++ sprint_list (S ind) el ++ [CText (indent_text ind); CText t_rbrace] else [])
-    ++ [CText t_nl].
-Proof.
-  cbn [sprint].
-  assert (H : forall l, (fix body (l0 : list jstmt) : list chunk := match l0 with [] => [] | x :: r => sprint (S ind) x ++ body r end) l
-                        = sprint_list (S ind) l).
-  { induction l as [|x r IH]; [reflexivity|]. cbn [sprint_list]. rewrite <- IH. reflexivity. }
-  rewrite !H. reflexivity.
-Qed.
-
-(* a block at one more level of indentation *)
-Lemma gres_block f l : forall st,
-  Forall (fun s => forall st, (sdepth s < f)%nat ->
-                   gres (jwalk o f (snode s)) st (sprint (j_indent st) (sgen (j_scope st) (j_auto st) (j_buf st) s))) l ->
-  (forall x, In x l -> (sdepth x < f)%nat) ->
-  gres (indent_inc ;;; jwalk o (S f) (NList 0 (map snode l)) ;;; indent_dec) st
-       (sprint_list (S (j_indent st)) (map (sgen (j_scope st) (j_auto st) (j_buf st)) l)).
-Proof.
-  intros st HF Hd.
-  assert (Hlist : forall l0 s0, Forall (fun s => forall st, (sdepth s < f)%nat ->
-                     gres (jwalk o f (snode s)) st (sprint (j_indent st) (sgen (j_scope st) (j_auto st) (j_buf st) s))) l0 ->
-                   (forall x, In x l0 -> (sdepth x < f)%nat) ->
-                   gres (jwalk_list (jwalk o f) (map snode l0)) s0 (sprint_list (j_indent s0) (map (sgen (j_scope s0) (j_auto s0) (j_buf s0)) l0))).
-  { induction l0 as [|x r IH]; intros s0 HF0 Hd0; cbn [map jwalk_list sprint_list].
-    - exists s0. repeat split; auto.
-    - inversion HF0 as [|? ? Hx Hr]; subst. apply gres_bind. apply Hx. apply Hd0. left; reflexivity.
-      intros s1 I1 B1 S1 A1. rewrite <- I1, <- B1, <- S1, <- A1. apply IH; auto. intros y Hy. apply Hd0. right; exact Hy. }
-  unfold gres.
-  set (st1 := set_indent (S (j_indent st)) st).
-  assert (E1 : indent_inc st = Ok (tt, st1)) by reflexivity.
-  erewrite jbind_ok; [|exact E1].
-  (* the block itself: s.at, push, statements, pop *)
-  set (st2 := jset_cur None st1).
-  assert (E2 : jsc_push st2 = Ok (tt, set_scope ([] :: j_scope st2) (j_n st2) st2)) by reflexivity.
-  set (st3 := set_scope ([] :: j_scope st2) (j_n st2) st2) in *.
-  assert (H3 : j_indent st3 = S (j_indent st) /\ j_buf st3 = j_buf st /\ j_scope st3 = [] :: j_scope st /\ j_auto st3 = j_auto st /\ j_out st3 = j_out st)
-    by (subst st3 st2 st1; destruct st; cbn; auto).
-  destruct H3 as (I3 & B3 & S3 & A3 & O3).
-  destruct (Hlist l st3 HF Hd) as (st4 & E4 & O4 & I4 & B4 & S4 & A4).
-  assert (E5 : jsc_pop st4 = Ok (tt, set_scope (tl (j_scope st4)) (j_n st4) st4)) by reflexivity.
-  assert (Eall : (jsc_push ;;; jwalk_list (jwalk o f) (map snode l) ;;; jsc_pop) st2 = Ok (tt, set_scope (tl (j_scope st4)) (j_n st4) st4)).
-  { erewrite jbind_ok; [|exact E2]. erewrite jbind_ok; [|exact E4]. exact E5. }
-  assert (E6 : indent_dec (set_scope (tl (j_scope st4)) (j_n st4) st4)
-               = Ok (tt, set_indent (pred (j_indent (set_scope (tl (j_scope st4)) (j_n st4) st4))) (set_scope (tl (j_scope st4)) (j_n st4) st4))) by reflexivity.
-  assert (Ewalk : jwalk o (S f) (NList 0 (map snode l)) st1 = Ok (tt, set_scope (tl (j_scope st4)) (j_n st4) st4)).
-  { rewrite jwalk_S. cbn [soydoc_flags jwalk_node]. exact Eall. }
-  erewrite jbind_ok; [|exact Ewalk]. rewrite E6.
-  eexists. split; [reflexivity|].
-  rewrite I3, B3, S3, A3 in O4.
-  assert (Hm : map (sgen ([] :: j_scope st) (j_auto st) (j_buf st)) l = map (sgen (j_scope st) (j_auto st) (j_buf st)) l).
-  { clear. induction l as [|x r IH]; [reflexivity|]. cbn [map]. rewrite sgen_push_frame, IH. reflexivity. }
-  rewrite Hm in O4.
-  destruct st4; cbn in *. subst. cbn. auto.
-Qed.
-
-Theorem sgen_print s : forall f st, (sdepth s < f)%nat ->
-  gres (jwalk o f (snode s)) st (sprint (j_indent st) (sgen (j_scope st) (j_auto st) (j_buf st) s)).
-Proof.
-  induction s as [t|e ds|c th he el IHt IHe] using cstmt_ind'; intros f st Hf.
-  - (* raw *) destruct f as [|f]; [cbn in Hf; lia|]. cbn [snode sgen sprint]. unfold gres. rewrite jwalk_S. cbn [soydoc_flags jwalk_node].
-    unfold write_raw_text. set (st1 := jset_cur None st).
-    assert (H1 : j_indent st1 = j_indent st /\ j_buf st1 = j_buf st /\ j_scope st1 = j_scope st /\ j_auto st1 = j_auto st /\ j_out st1 = j_out st)
-      by (subst st1; destruct st; cbn; auto).
-    destruct H1 as (I1 & B1 & S1 & A1 & O1). rewrite <- I1, <- B1.
-    unfold jindent. erewrite jbind_ok; [|erewrite jbind_ok; [apply jtxt_out|reflexivity]].
-    unfold bufname. erewrite jbind_ok; [|erewrite jbind_ok; [reflexivity|reflexivity]].
-    rewrite jemit_out. eexists. split; [reflexivity|]. rewrite !j_out_st_out, buf_out, O1.
-    split; [cbn; reflexivity|]. destruct st1; cbn in *; auto.
-  - (* print *)
-    cbn [snode sgen sprint]. cbn [sdepth] in Hf. destruct (cgen_print_dirs o e ds f st ltac:(lia)) as (stf & E & O & I & B & S & A).
-    exists stf. repeat split; auto.
-  - (* if *)
-    cbn [sdepth] in Hf. destruct f as [|f]; [lia|]. destruct f as [|f']; [lia|].
-    cbn [snode sgen]. rewrite sprint_if_eq. unfold gres. rewrite jwalk_S. cbn [soydoc_flags jwalk_node].
-    set (st1 := jset_cur None st).
-    assert (H1 : j_indent st1 = j_indent st /\ j_buf st1 = j_buf st /\ j_scope st1 = j_scope st /\ j_auto st1 = j_auto st /\ j_out st1 = j_out st)
-      by (subst st1; destruct st; cbn; auto).
-    destruct H1 as (I1 & B1 & S1 & A1 & O1).
-    assert (Hdt : forall x, In x th -> (sdepth x < f')%nat) by (intros x Hx; pose proof (maxl_le x th Hx); lia).
-    assert (Hde : forall x, In x el -> (sdepth x < f')%nat) by (intros x Hx; pose proof (maxl_le x el Hx); lia).
-    set (TH := sprint_list (S (j_indent st1)) (map (sgen (j_scope st1) (j_auto st1) (j_buf st1)) th)).
-    set (EL := sprint_list (S (j_indent st1)) (map (sgen (j_scope st1) (j_auto st1) (j_buf st1)) el)).
-    set (IND := [CText (indent_text (j_indent st1))]).
-    set (REST := if he then [CText t_else] ++ ([] ++ ([CText t_brace_nl] ++ (EL ++ IND ++ [CText t_rbrace] ++ []))) else []).
-    assert (Hmain : gres (jindent ;;; (jif_conds (jwalk o (S f')) true
-                            (NIfCond 0 (Some (cnode c)) (NList 0 (map snode th)) :: (if he then [NIfCond 0 None (NList 0 (map snode el))] else []))
-                          ;;; jtxt t_nl)) st1
-             (IND ++ (([] ++ (([CText t_if_open] ++ (jprint (cgen (j_scope st1) c) ++ [CText t_op_mid1]))
-                              ++ ([CText t_brace_nl] ++ (TH ++ IND ++ [CText t_rbrace] ++ REST)))) ++ [CText t_nl]))).
-    { apply gres_bind. apply gres_indent. intros s1 I2 B2 S2 A2. apply gres_bind; [|intros; apply gres_txt].
-      cbn [jif_conds].
-      apply gres_bind. { exists s1. repeat split; auto. }
-      intros s2 I3 B3 S3 A3. apply gres_bind.
-      { apply gres_bind. apply gres_txt. intros s3 I4 B4 S4 A4. apply gres_bind; [|intros; apply gres_txt].
-        assert (Hs : j_scope s3 = j_scope st1) by congruence. rewrite <- Hs.
-        exists (st_after s3 (jprint (cgen (j_scope s3) c))). rewrite (cgen_print o c (S f') s3 ltac:(lia)).
-        split; [reflexivity|]. rewrite j_out_st_after.
-        split; [reflexivity|]. unfold st_after, st_out. destruct s3; cbn; auto. }
-      intros s3 I4 B4 S4 A4. apply gres_bind. apply gres_txt. intros s4 I5 B5 S5 A5.
-      assert (Hblk : forall l sx, Forall (fun s => forall f st, (sdepth s < f)%nat ->
-                        gres (jwalk o f (snode s)) st (sprint (j_indent st) (sgen (j_scope st) (j_auto st) (j_buf st) s))) l ->
-                      (forall x, In x l -> (sdepth x < f')%nat) ->
-                      j_indent sx = j_indent st1 -> j_buf sx = j_buf st1 -> j_scope sx = j_scope st1 -> j_auto sx = j_auto st1 ->
-                      forall rest crest, (forall s', j_indent s' = j_indent st1 -> j_buf s' = j_buf st1 -> j_scope s' = j_scope st1 -> j_auto s' = j_auto st1 -> gres rest s' crest) ->
-                      gres (indent_inc ;;; jwalk o (S f') (NList 0 (map snode l)) ;;; indent_dec ;;; jindent ;;; jtxt t_rbrace ;;; rest) sx
-                           (sprint_list (S (j_indent st1)) (map (sgen (j_scope st1) (j_auto st1) (j_buf st1)) l)
-                            ++ IND ++ [CText t_rbrace] ++ crest)).
-      { intros l sx HF Hd Ix Bx Sx Ax rest crest Hrest.
-        assert (HF' : Forall (fun s => forall st, (sdepth s < f')%nat ->
-                          gres (jwalk o f' (snode s)) st (sprint (j_indent st) (sgen (j_scope st) (j_auto st) (j_buf st) s))) l)
-          by (eapply Forall_impl; [|exact HF]; intros a Ha st0; apply Ha).
-        pose proof (gres_block f' l sx HF' Hd) as Hb. rewrite Ix, Bx, Sx, Ax in Hb.
-        destruct Hb as (sy & Ey & Oy & Iy & By & Sy & Ay).
-        assert (Eseq : (indent_inc ;;; jwalk o (S f') (NList 0 (map snode l)) ;;; indent_dec ;;; jindent ;;; jtxt t_rbrace ;;; rest) sx
-                       = (jindent ;;; jtxt t_rbrace ;;; rest) sy).
-        { unfold jbind in Ey |- *. destruct (indent_inc sx) as [[u1 sa]| | | | |]; try discriminate.
-          destruct (jwalk o (S f') (NList 0 (map snode l)) sa) as [[u2 sb]| | | | |]; try discriminate. rewrite Ey. reflexivity. }
-        assert (Hrest2 : gres (jindent ;;; jtxt t_rbrace ;;; rest) sy (IND ++ [CText t_rbrace] ++ crest)).
-        { apply gres_bind. subst IND. replace (j_indent st1) with (j_indent sy) by congruence. apply gres_indent.
-          intros sa Ia Ba Sa Aa. apply gres_bind. apply gres_txt. intros sb Ib Bb Sb Ab. apply Hrest; congruence. }
-        destruct Hrest2 as (sz & Ez & Oz & Iz & Bz & Sz & Az). exists sz. rewrite Eseq. split; [exact Ez|].
-        split; [|repeat split; congruence].
-        rewrite Oz, Oy. rewrite (rev_app_distr (sprint_list (S (j_indent st1)) (map (sgen (j_scope st1) (j_auto st1) (j_buf st1)) l))).
-        rewrite <- app_assoc. reflexivity. }
-      apply (Hblk th s4 IHt Hdt); try congruence.
-      intros s5 I6 B6 S6 A6. subst REST. destruct he; cbn [jif_conds].
-      - apply gres_bind. apply gres_txt. intros s6 I7 B7 S7 A7.
-        apply gres_bind. { exists s6. repeat split; auto. }
-        intros s7 I8 B8 S8 A8. apply gres_bind. apply gres_txt. intros s8 I9 B9 S9 A9.
-        apply (Hblk el s8 IHe Hde); try congruence. intros s9 I10 B10 S10 A10. exists s9. repeat split; auto.
-      - exists s5. repeat split; auto. }
-    destruct Hmain as (stf & E & O & I & B & S & A). exists stf. split; [exact E|].
-    split; [|repeat split; congruence].
-    rewrite O, O1. f_equal. f_equal. subst TH EL IND REST. rewrite I1, B1, S1, A1.
-    destruct he; rewrite <- ?app_assoc; cbn [app]; rewrite ?app_nil_r; reflexivity.
-Qed.
-End StmtChunks.
-
-(* ================================================================== *)
-(* gen_correct_partial_if: statements built from raw text, {print e|ds} and {if}..{else}..{/if} with nested
-   blocks of such statements (no binders).  If the subset semantics gives the text [sout s], then
-   (Go)  the walker of Model/Interp.v writes exactly that text and leaves scope, mode and writer as they were;
-   (JS)  executing the MiniJS statement [sgen ...] appends exactly that text to the buffer variable and keeps
-         the environments related;
-   (Gen) the MiniJS statement is what Model/JsGen.v emits: walking the node appends [sprint (sgen ...)]. *)
-Theorem gen_correct_partial_if cf o sc je st jst s fuel text old :
-  c_oblig cf = [] -> gst st ->
-  (sdepth s < fuel)%nat ->
-  env_rel sc (c_ij cf) (sc_lookup (ctx st)) je ->
-  (forall key, bstr_eqb (jsc_lookup sc key) (j_buf jst) = false) -> bstr_eqb t_opt_ij (j_buf jst) = false ->
-  assoc_s (j_buf jst) (je_vars je) = Some (JStr old) ->
-  j_scope jst = sc -> j_auto jst = mode st ->
-  sout (c_ij cf) (sc_lookup (ctx st)) (mode st) go_print_text s = Some text ->
-  sres cf (walk cf fuel (snode s)) st text
-  /\ (exists je', js_exec je (sgen sc (mode st) (j_buf jst) s) = Ok je'
-                  /\ assoc_s (j_buf jst) (je_vars je') = Some (JStr (old ++ text))
-                  /\ env_rel sc (c_ij cf) (sc_lookup (ctx st)) je')
-  /\ gres (jwalk o fuel (snode s)) jst (sprint (j_indent jst) (sgen sc (mode st) (j_buf jst) s)).
-Proof.
-  intros Hob Hg Hf ER Hfresh Hij Hbuf Hsc Hmode E. split; [|split].
-  - apply (interp_stmt cf (sc_lookup (ctx st)) Hob); auto.
-    + intros k x Hk. pose proof (er_core _ _ _ _ ER k) as H. unfold env_val in H. rewrite Hk in H. exact H.
-    + intros x Hx. exact (er_core_ij _ _ _ _ ER x Hx).
-  - destruct (js_exec_correct sc (c_ij cf) (sc_lookup (ctx st)) (mode st) (j_buf jst) Hfresh Hij s je old text E (conj ER Hbuf)) as (je' & Ej & ER' & Hb').
-    exists je'. auto.
-  - subst sc. rewrite <- Hmode. apply sgen_print. exact Hf.
-Qed.
-
-(* the same with gst / sres / gres unfolded, as stated in Properties/C04.v *)
-Theorem gen_correct_partial_if_stmt : forall cf o sc je st jst s fuel text old,
-  c_oblig cf = [] -> bufs st = [] -> calls_left st = None -> bytes_left st = None ->
-  (sdepth s < fuel)%nat ->
-  env_rel sc (c_ij cf) (sc_lookup (ctx st)) je ->
-  (forall key, bstr_eqb (jsc_lookup sc key) (j_buf jst) = false) -> bstr_eqb t_opt_ij (j_buf jst) = false ->
-  assoc_s (j_buf jst) (je_vars je) = Some (JStr old) ->
-  j_scope jst = sc -> j_auto jst = mode st ->
-  sout (c_ij cf) (sc_lookup (ctx st)) (mode st) go_print_text s = Some text ->
-  (exists st' ws rv, walk cf fuel (snode s) st = (Ok rv, st') /\ out st' = rev ws ++ out st /\ concat_b ws = text
-                     /\ ctx st' = ctx st /\ mode st' = mode st
-                     /\ bufs st' = [] /\ calls_left st' = None /\ bytes_left st' = None)
-  /\ (exists je', js_exec je (sgen sc (mode st) (j_buf jst) s) = Ok je'
-                  /\ assoc_s (j_buf jst) (je_vars je') = Some (JStr (old ++ text))
-                  /\ env_rel sc (c_ij cf) (sc_lookup (ctx st)) je')
-  /\ (exists jstf, jwalk o fuel (snode s) jst = Ok (tt, jstf)
-                   /\ j_out jstf = rev (sprint (j_indent jst) (sgen sc (mode st) (j_buf jst) s)) ++ j_out jst
-                   /\ j_indent jstf = j_indent jst /\ j_buf jstf = j_buf jst
-                   /\ j_scope jstf = j_scope jst /\ j_auto jstf = j_auto jst).
-Proof.
-  intros cf o sc je st jst s fuel text old H1 H2 H3 H4.
-  exact (gen_correct_partial_if cf o sc je st jst s fuel text old H1 (conj H2 (conj H3 H4))).
 Qed.
